@@ -7,6 +7,7 @@ Model: `M.balanced` (the stack loop of Pattern::new) and `M.altMatch`
 Spec: parse trees `S.Seq` with `render`, `wf`, `expand` (Spec/Brace.lean).
 -/
 import PkgsrcVerif.Lemmas.BraceParse
+import PkgsrcVerif.Lemmas.BraceUnique
 open M S
 
 /-- a pattern containing a brace compiles iff the stack loop accepts it, and then as an
@@ -115,6 +116,22 @@ theorem C04_every_pattern (p : Str) (pat : Pattern)
       rw [this.1, this.2] at hb; simp at hb
     | succ k => omega
   exact C04_pattern_matches t n hw hg pat hp
+
+/-- **The parse tree of a pattern is unique**: two well-formed trees with the same rendering are
+    equal (the closing brace of a group and the commas of its own depth are determined by the
+    text), so "the csh-style brace expansion of the pattern" is a function of the pattern STRING. -/
+theorem C04_parse_tree_unique (t1 t2 : Seq) (h1 : t1.wf false = true) (h2 : t2.wf false = true)
+    (h : t1.render = t2.render) : t1 = t2 :=
+  L.Seq.render_inj t1 t2 false h1 h2 h
+
+/-- hence: every compiling brace pattern has EXACTLY ONE parse tree, and the compiled pattern
+    matches a name iff some string of that tree's expansion matches it -/
+theorem C04_every_pattern_unique (p : Str) (pat : Pattern)
+    (hb : (p.contains '{' || p.contains '}') = true) (hp : patternNew p = .ok pat) :
+    ∃ t : Seq, (t.wf false = true ∧ t.render = p) ∧ (∀ t' : Seq, t'.wf false = true → t'.render = p → t' = t) ∧
+      ∀ n, patternMatches pat n = t.expand.any (expansionMatches · n) := by
+  obtain ⟨⟨t, hw, hr⟩, hall⟩ := C04_every_pattern p pat hb hp
+  exact ⟨t, ⟨hw, hr⟩, fun t' hw' hr' => C04_parse_tree_unique t' t hw' hw (hr'.trans hr.symm), hall t hw hr⟩
 
 /-- non-vacuity: the tree of `{a{b,c},d}-1` is well formed, renders to that string and
     expands to exactly ab-1, ac-1, d-1 (so `ad-1` is not an expansion) -/
